@@ -230,7 +230,18 @@ pub fn run(ctx: &Ctx, out: &mut CaseOut) {
         return;
     }
     // generated programs across all fragments
-    let mode = (ctx.k - nc) % 11;
+    let mode = (ctx.k - nc) % 12;
+    if mode == 11 {
+        // lifetime fragment (answers carry region constraints; only the substitutions are compared)
+        let w = crate::props::workload::lifetime_work(&mut r, 10);
+        let goals: Vec<String> = w.goals.iter().map(|g| g.0.clone()).collect();
+        out.count("generated-fragment:lifetime");
+        run_pair(out, &w.text, &goals, false, "generated:lifetime");
+        if out.sample.is_none() {
+            out.sample = Some(J::obj().set("origin", "generated:lifetime").set("program", w.text.as_str()).set("goal", goals[0].as_str()));
+        }
+        return;
+    }
     if mode == 10 {
         // known-answer programs over every built-in type constructor; here only the two solvers are compared
         let z = crate::zoo::gen_zoo(&mut r);
